@@ -152,7 +152,16 @@ bool MainSolver::tryAddNamedAssertion(PTRef fla, std::string const & name) {
 }
 
 bool MainSolver::tryAddTermNameFor(PTRef fla, std::string const & name) {
+#ifdef OPENSMT_VERIF_TRACE
+    bool const inserted = termNames.tryInsert(name, fla);
+    if (veriftrace::on()) {
+        veriftrace::emit("{\"e\":\"name\",\"n\":" + veriftrace::quote(name) + ",\"x\":" + std::to_string(fla.x) + ",\"ok\":" +
+                         (inserted ? "true" : "false") + ",\"ms\":" + std::to_string(reinterpret_cast<std::uintptr_t>(this)) + "}");
+    }
+    return inserted;
+#else
     return termNames.tryInsert(name, fla);
+#endif
 }
 
 sstat MainSolver::simplifyFormulas() {
